@@ -7,6 +7,7 @@ for log in sys.argv[1:]:
     for block in re.split(r'^=== mutant ', txt, flags=re.M)[1:]:
         name = block.split('\n',1)[0].strip()
         src = f'/tmp/wt/{name}'
+        out_name = name if not name.startswith('R2') else name[2:] + '-r2'
         if not os.path.exists(f'{src}/mutant.diff'): continue
         pr = re.search(r'pristine\+demo:\s*(.*)', block); mu = re.search(r'mutant\+demo:\s*(.*)', block)
         demos = re.search(r'demo tests:\s*(.*)', block)
@@ -15,14 +16,14 @@ for log in sys.argv[1:]:
         killed = [c for c,rc,_ in checks if rc=='1']
         inconclusive = [c for c,rc,_ in checks if rc not in ('0','1')]
         confirmed = bool(pr and ' 0 failed' in pr.group(1) and mu and '79 passed' in mu.group(1) and 'FAILED' in mu.group(1))
-        d = f'/verif/seeded/{name}'; os.makedirs(d, exist_ok=True)
+        d = f'/verif/seeded/{out_name}'; os.makedirs(d, exist_ok=True)
         shutil.copy(f'{src}/mutant.diff', f'{d}/patch.diff'); shutil.copy(f'{src}/demo.diff', f'{d}/demo.diff')
         if os.path.exists(f'{src}/REPORT.md'): shutil.copy(f'{src}/REPORT.md', f'{d}/REPORT.md')
-        prop = re.match(r'(C\d+)', name).group(1)
+        prop = re.search(r'(C\d+)', name).group(1)
         meta = {
           "breaks_property": prop,
           "written_by": "independent sub-agent given only the property record and a scratch worktree of /repo (nothing from /verif)",
-          "needs_to_manifest": NEEDS.get(name, ""),
+          "needs_to_manifest": NEEDS.get(out_name, ""),
           "demonstration": {"file": "demo.diff", "tests": demos.group(1).split() if demos else []},
           "confirmed_in_scratch_worktree": {
              "pristine_plus_demo": pr.group(1) if pr else None,
@@ -38,4 +39,4 @@ for log in sys.argv[1:]:
           "target_property_check_catches_it": prop in killed,
         }
         json.dump(meta, open(f'{d}/meta.json','w'), indent=1)
-        print(name, 'confirmed' if confirmed else 'NOT CONFIRMED', 'killed by', killed)
+        print(out_name, 'confirmed' if confirmed else 'NOT CONFIRMED', 'killed by', killed)
